@@ -51,7 +51,13 @@ int ogg_stream_init(ogg_stream_state *os,int serialno){ memset(os,0,sizeof *os);
 int ogg_stream_clear(ogg_stream_state *os){ if(os){ if(os->body_data)free(os->body_data); memset(os,0,sizeof *os);} return 0; }
 int ogg_stream_reset(ogg_stream_state *os){ return 0; }
 int ogg_stream_reset_serialno(ogg_stream_state *os,int serialno){ os->serialno=serialno; return 0; }
-int ogg_stream_pagein(ogg_stream_state *os,ogg_page *og){ return ND_BOOL()?0:-1; }
+/* ghost page identity: the page source of a harness bumps env_page_id for every page it hands out; pagein records which page the stream layer saw last */
+static int env_page_id=0, env_page_in=-1;
+int ogg_stream_pagein(ogg_stream_state *os,ogg_page *og){
+#ifdef VF_PAGEIN_HOOK
+  VF_PAGEIN_HOOK(os,og);
+#endif
+  env_page_in=env_page_id; return ND_BOOL()?0:-1; }
 static unsigned char env_pkt[8];
 static ogg_int64_t env_last_gran=-1; static int env_last_eos=0;   /* ghost: granule position / e_o_s of the packet handed out last */
 static int env_pk(ogg_packet *op){ if(env_budget<=0) return 0; env_budget--; int r=ND_irange(-1,1);
